@@ -6,7 +6,7 @@ from vlib import chx
 
 HARNESS = os.path.join(os.path.dirname(__file__), "chx_C20.py")
 QUICK = [("chk_scan_scalar_or_none", 90), ("chk_scan_list_index_3files", 120), ("chk_scan_list_key_3files", 120), ("chk_scan_list_both_2files", 120), ("chk_scan_list_single_file", 60), ("chk_first_image_hdu", 120), ("chk_agree_list_index_3files", 170), ("chk_agree_list_both_2files", 170), ("chk_agree_scalar_or_none", 120),
-         ("chk_load_single_path", 30), ("chk_cli_hdu_index", 120), ("chk_cli_wcs_key", 60), ("chk_cli_end_to_end", 90)]
+         ("chk_load_single_path", 30), ("chk_repeated_paths_index", 240), ("chk_repeated_paths_index_and_key", 170), ("chk_cli_hdu_index", 120), ("chk_cli_wcs_key", 60), ("chk_cli_end_to_end", 90)]
 THOROUGH = QUICK + [("chk_agree_list_index_4files", 1500), ("chk_scan_list_both_3files", 1500)]
 
 
@@ -14,7 +14,7 @@ def check(run):
     run.uses(tc.SimpleFitsCollection._scan_hdus, tc.SimpleFitsCollection._load, tc.SimpleFitsCollection.export_simple,
              tc.SimpleFitsCollection.descriptions, tc.SimpleFitsCollection.images, tc.load,
              tc.CollectionLoader.create_from_args, tc.CollectionLoader.load_paths)
-    run.bound(files="<= 3", hdus_per_file="3 (4 for the first-image search, symbolic kinds)", selection="scalar / per-file list / None, symbolic values",
+    run.bound(files="<= 3 positions, the same file possibly listed several times", hdus_per_file="3 (4 for the first-image search, symbolic kinds)", selection="scalar / per-file list / None, symbolic values",
               wcs_keys="' ', 'A', 'B' (symbolic choice), scalar / list / None", cli="--hdu-index with 1..3 integers <= 12; --wcs-key with 1..2 letters")
     run.assume("astropy.io.fits.open replaced by a fake HDU list whose __getitem__ accepts int/str/tuple only (as astropy does) and whose HDUs carry (file, index)",
                "astropy.wcs.WCS replaced by a recorder of (header, key); BinTableHDU replaced by a stand-in class (type identity is what the code tests)")
